@@ -1451,7 +1451,7 @@ func streamIndex(o opts) {
 	for rep := 0; rep < 4; rep++ {
 		mw := newMW(0, httpcache.PathExtractorFromKey)
 		hnd := mw.Wrap(http.HandlerFunc(func(w http.ResponseWriter, rq *http.Request) { w.Write([]byte("ok")) }))
-		ctx := fmt.Sprintf("Clear racing stores, round %d", rep)
+		ctx := fmt.Sprintf("%s racing stores, round %d", map[bool]string{true: "Clear", false: "InvalidateByFunc(all)"}[rep%2 == 0], rep)
 		watch(ctx)
 		var wg sync.WaitGroup
 		var stopC atomic.Bool
@@ -1465,7 +1465,11 @@ func streamIndex(o opts) {
 			}(g)
 		}
 		for i, t0 := 0, time.Now(); i < 400 && time.Since(t0) < 2*time.Second; i++ {
-			mw.Clear()
+			if rep%2 == 0 {
+				mw.Clear()
+			} else {
+				mw.InvalidateByFunc(func(string) bool { return true }) // matches every cached key
+			}
 			runtime.Gosched()
 		}
 		stopC.Store(true)
@@ -1489,6 +1493,47 @@ func streamIndex(o opts) {
 		unwatch()
 		mw.Close()
 		m.count("clear_race_rounds")
+	}
+	// (f) keys without a path (the PathExtractor returns "" for them) are cached but never indexed: no pattern reaches
+	// them, not even "/" or "/*", and they never show up among the index keys
+	{
+		ext := func(key string) string {
+			if strings.HasPrefix(key, "GET:/np") {
+				return ""
+			}
+			return httpcache.PathExtractorFromKey(key)
+		}
+		mw := newMW(0, ext)
+		hnd := mw.Wrap(http.HandlerFunc(func(w http.ResponseWriter, rq *http.Request) { w.Write([]byte("ok")) }))
+		get := func(path string) string {
+			rec := httptest.NewRecorder()
+			hnd.ServeHTTP(rec, httptest.NewRequest("GET", path, nil))
+			return rec.Header().Get("X-Cache")
+		}
+		ctx := "keys without a path"
+		watch(ctx)
+		for _, p := range []string{"/np/report", "/np", "/", "/a", "/a/b"} {
+			get(p)
+		}
+		for _, k := range mw.VerifIndexKeys() {
+			if strings.HasPrefix(k, "GET:/np") {
+				m.violate("C15", fmt.Sprintf("%s: key %q has no path (the PathExtractor returned \"\") yet is reachable through the path index", ctx, k), ctx)
+			}
+		}
+		for _, pat := range []string{"/", "", "/*", "*"} {
+			n := mw.Invalidate(pat)
+			settle(mw)
+			if get("/np/report") != "HIT" || get("/np") != "HIT" {
+				m.violate("C15", fmt.Sprintf("%s: Invalidate(%q) (removed %d) took away a cached response that has no path; entries on other paths are untouched", ctx, pat, n), ctx)
+				break
+			}
+			if pat == "/" && n != 1 {
+				m.violate("C15", fmt.Sprintf("%s: Invalidate(\"/\") removed %d entries, exactly the response of path / is on that path", ctx, n), ctx)
+			}
+		}
+		unwatch()
+		mw.Close()
+		m.count("pathless_probe")
 	}
 	// regression for finding F5 (fixed): the schedule index r1, index r2, Set r2, r2 evicted and notified, Set r1, driven
 	// through the real store with the cooperative scheduler (a store parks at the yield point inside its cache write).
